@@ -14,6 +14,8 @@ type intTr struct {
 	p   *pkgSrc
 	ct  *constTable
 	arg string
+	// local boolean variables defined from comparisons of the argument (`inRange := code >= a && code <= b`)
+	locals map[string]string
 }
 
 func (t *intTr) cond(e ast.Expr) (string, bool) {
@@ -26,6 +28,9 @@ func (t *intTr) cond(e ast.Expr) (string, bool) {
 		}
 		if e.Name == "false" {
 			return ".ff", true
+		}
+		if c, ok := t.locals[e.Name]; ok {
+			return c, true
 		}
 	case *ast.UnaryExpr:
 		if e.Op == token.NOT {
@@ -76,6 +81,18 @@ func boolLit(e ast.Expr) (string, bool) {
 func (t *intTr) stmts(list []ast.Stmt) []string {
 	var out []string
 	for _, s := range list {
+		// `name := <condition>`: remembered and substituted where the name is used
+		if as, ok := s.(*ast.AssignStmt); ok && as.Tok == token.DEFINE && len(as.Lhs) == 1 && len(as.Rhs) == 1 {
+			if id, ok := as.Lhs[0].(*ast.Ident); ok {
+				if c, ok := t.cond(as.Rhs[0]); ok {
+					if t.locals == nil {
+						t.locals = map[string]string{}
+					}
+					t.locals[id.Name] = c
+					continue
+				}
+			}
+		}
 		out = append(out, t.stmt(s))
 	}
 	return out
